@@ -38,7 +38,9 @@ RULE = ("schedules of whole operations (start, try_send / send_blocking from pro
         "burst or conflating; sends run on their own threads, a send_blocking at capacity stays parked until a cycle "
         "or the stop releases it (at most one parked sender at a time); thorough adds every order of 2 producers x 2 "
         "messages x 4 cycles for capacities 0,1,2; a second, monitor-only stream runs 2-6 REAL producer threads against the "
-        "real run loop (no hooks, OS-chosen interleavings). Streams multi / multi-threads: graphs with 1-3 push sources "
+        "real run loop (no hooks, OS-chosen interleavings); a third, push-tryonly, lets 1-4 real producer threads call plain "
+        "try_send WITHOUT retry (3000-20000 sends each) against an unbounded queue or a burst source of capacity 1000000, with or "
+        "without a thread polling inspection_metrics, and requires refused = 0. Streams multi / multi-threads: graphs with 1-3 push sources "
         "(independent policy and capacity each) sharing the one executor flag: sends address a source, cycles are driven by "
         "hand (c) or as the loop would (L: cycles while the flag is raised), with backlogs of >= 2 values on a queue source "
         "that is NOT the last of the push prefix, bounded sources kept full by try_send, producers on several sources, one "
@@ -61,6 +63,10 @@ TRUSTED = [
     "data races and lifetime of the sender control block (active_calls / wait_for_quiescence / detach) are not "
     "modelled beyond the closing flag; TSan not run",
     "Value payloads are ints; schema validation (validate()) and the Value/TSOutput layers are trusted",
+    "the rule [refused] of stream push-tryonly (every plain try_send to a never-full source is accepted while no stop is "
+    "requested) is decided on REAL-THREAD runs only: the sequential model proves try_send_refused_iff_full_or_stopped for "
+    "the mutex-protected sections executed one after the other; a refusal caused by contention on the policy mutex itself "
+    "is outside the model and is only visible with real concurrency",
 ]
 ASSUMPTIONS = [
     "eventually_delivered: weak fairness of every thread's steps, no stop request and no graph stop later, and the "
@@ -253,6 +259,14 @@ def streams(rng, tier, seed):
                              "stressn %d %d %s" % (rng.choice([30, 120, 300]), rng.choice([0, 1, 2]), " ".join(map(str, caps)))],
                             {"kind": "multi-threads"}))
     out.append(Stream("multi-threads", [os.path.join(BUILD, "hgv_pushn")], None, mstress, timeout=1800))
+    # plain try_send WITHOUT retry from real producer threads against a source that can never be full
+    fixed = [(4, 4000, "q", 0), (4, 20000, "b", 0), (1, 6000, "q", 1), (1, 6000, "q", 0), (2, 8000, "q", 0), (3, 8000, "b", 1)]
+    tro = [Case(["case %d" % (700000 + i), "tryonly %d %d %s %d" % f], {"kind": "tryonly"}) for i, f in enumerate(fixed)]
+    for i in range(4 if q else 120):
+        tro.append(Case(["case %d" % (700100 + i),
+                         "tryonly %d %d %s %d" % (rng.choice([1, 2, 3, 4]), rng.choice([3000, 6000, 12000]), rng.choice("qqb"), rng.choice([0, 0, 1]))],
+                        {"kind": "tryonly"}))
+    out.append(Stream("push-tryonly", [os.path.join(BUILD, "hgv_pushn")], None, tro, timeout=1800))
     # conflating sources with a collection output (accumulator of deltas)
     dcorpus = [c for c in mcorpus if any(" d" in l for l in c.lines if l.startswith("cfgn"))]
     out[-2].cases = [c for c in out[-2].cases if c not in dcorpus]
@@ -1077,6 +1091,36 @@ class _MState:
         self.p, self.f = list(p), f
 
 
+def _analyse_tryonly(case, out):
+    """plain try_send without retry, real threads, a source that can never be full, no stop before the producers
+    are done: the rule is exact - every send must have been accepted"""
+    bad, feats = [], {"kind-tryonly"}
+    line = next((o for l, o in zip(case.lines, out) if l.startswith("tryonly")), None)
+    if not line or not line.startswith("tryonly "):
+        return ["[trace] no tryonly output: %r" % (line,)], feats
+    kv = dict(x.split("=", 1) for x in line.split()[1:] if "=" in x)
+    try:
+        sends = [int(x) for x in kv["sends"].split("/")]
+        accepted = [int(x) for x in kv["accepted"].split("/")]
+        refused = [int(x) for x in kv["refused"].split("/")]
+        delivered = int(kv["delivered"])
+    except Exception:
+        return ["[trace] unreadable tryonly output %r" % line[:100]], feats
+    if "run_error" in kv:
+        bad.append("[trace] run() threw: " + kv["run_error"][:80])
+    if kv.get("stop_before_done") == "0" and sum(refused):
+        bad.append("[refused] %d of %d non-blocking sends were refused (per producer %s) although the %s can never be full and no stop "
+                   "was requested before the producers finished (%s real producer thread(s)%s)"
+                   % (sum(refused), sum(sends), kv["refused"], "unbounded queue" if kv.get("policy") == "q" else "burst source (capacity 1000000)",
+                      kv.get("producers"), ", a metrics poller" if kv.get("poller") == "1" else ""))
+    if any(a + r != s for a, r, s in zip(accepted, refused, sends)):
+        bad.append("[trace] accepted + refused != sends: %s" % line[:120])
+    if kv.get("timeout") == "1" or delivered != sum(accepted):
+        bad.append("[lost] %d of %d accepted values delivered with the run still going (real threads)" % (delivered, sum(accepted)))
+    feats.add("tryonly-%s-p%s%s" % (kv.get("policy"), kv.get("producers"), "-poller" if kv.get("poller") == "1" else ""))
+    return bad, feats
+
+
 def _analyse_mstress(case, out):
     bad, feats = [], {"kind-multi-threads"}
     line = next((o for l, o in zip(case.lines, out) if l.startswith("stressn")), None)
@@ -1117,6 +1161,8 @@ def _analyse_mstress(case, out):
 
 
 def _analyse_multi(case, out):
+    if any(l.startswith("tryonly") for l in case.lines):
+        return _analyse_tryonly(case, out)
     if any(l.startswith("stressn") for l in case.lines):
         return _analyse_mstress(case, out)
     caps, pols, line = None, None, None
@@ -1191,7 +1237,7 @@ def _analyse_multi(case, out):
 
 
 def _is_multi(stream, case):
-    return stream.startswith("multi") or any(l.startswith("cfgn") or l.startswith("stressn") for l in case.lines)
+    return stream.startswith("multi") or any(l.startswith(("cfgn", "stressn", "tryonly")) for l in case.lines)
 
 
 def monitor(stream, case, out):
@@ -1210,6 +1256,6 @@ def nontrivial(stream, case, out):
     if _is_multi(stream, case):
         f = _analyse_multi(case, out)[1]
         return bool(f & {"backlog-nonlast-queue", "multi-source-cycle", "sender-parked", "refused-full", "kind-multi-threads",
-                         "dict-noop-last", "dict-noop-after-effective"})
+                         "dict-noop-last", "dict-noop-after-effective", "kind-tryonly"})
     f = _analyse(case, out)[1]
     return bool(f & {"multi-producer-delivery", "sender-parked", "refused-full", "kind-threads"})
